@@ -44,12 +44,8 @@ async fn get_metrics(State(state): State<Arc<AppState>>) -> Result<String, Custo
     Ok(system.metrics.get_formatted_output())
 }
 
-async fn get_stats(
-    State(state): State<Arc<AppState>>,
-    Extension(identity): Extension<Identity>,
-) -> Result<Json<Stats>, CustomError> {
+async fn get_stats(State(state): State<Arc<AppState>>) -> Result<Json<Stats>, CustomError> {
     let system = state.system.read().await;
-    system.permissioner.get_stats(identity.user_id)?;
     let stats = system.get_stats().await.with_error_context(|error| {
         format!("{COMPONENT} (error: {error}) - failed to get stats")
     })?;
